@@ -117,7 +117,12 @@ fn contains_rect(outer: &Rectangle, inner: &Rectangle) -> bool {
 }
 
 /// layout claims for one skeleton; `plain` is the same text with every "\r\n" written as "\n"
-pub fn layout_claims(text: &'static str, plain: &'static str, font: &MonoFont) {
+pub fn layout_claims(text: &'static str, plain: &'static str, base: &MonoFont) {
+    // the real metrics and atlas of the built-in font with a constant-time glyph mapping: the layout
+    // level never looks at glyph pixels, and StrGlyphMapping::index is a linear search whose trip
+    // count would depend on which characters reach it (e.g. a CR that was not stripped)
+    let constant = |_c: char| 1usize;
+    let font = &MonoFont { glyph_mapping: &constant, ..*base };
     let s = sym_layout();
     let k = small_u(4);
     note!("text", text); note!("pos", s.pos); note!("align", s.align); note!("baseline", s.baseline); note!("line_height", s.line_height);
@@ -169,6 +174,19 @@ c15_layout!(c02_c14_c15_q_layout_6x10_d, FONT_6X10, 9, [("", ""), ("!!", "!!")])
 c15_layout!(c02_c14_c15_t_layout_6x10_e, FONT_6X10, 9, [("!\n", "!\n"), ("!!", "!!")]);
 #[cfg(feature = "thorough")]
 c15_layout!(c02_c14_c15_t_layout_6x10_f, FONT_6X10, 9, [("\r\n", "\n"), ("!!", "!!")]);
+
+/// the layout claims (incl. C02: every call area inside Text::bounding_box()) for one built-in font per
+/// distinct metric tuple, on a two-line skeleton
+macro_rules! c15_metrics {
+    ($name:ident, $($font:tt)+) => {
+        #[cfg_attr(kani, kani::proof, kani::unwind(9))]
+        pub fn $name() {
+            use embedded_graphics::mono_font::*;
+            layout_claims("!\n\" ", "!\n\" ", &$($font)+);
+        }
+    };
+}
+include!("generated/c15_metrics.rs");
 
 /// draw() returns what measure_string predicts; drawing s1 then s2 at the returned position is
 /// drawing s1+s2 (call logs: k-th glyph cell equal)
